@@ -159,9 +159,17 @@ def service_cases(draw, tier="quick", http=False):
     # JSON / UTF-8 encoding)
     for r in recs:
         if draw(st.integers(0, 3)) == 0:
-            odd = r["uri_prefix"] + draw(st.sampled_from(["q,r/", "a&b/", "&amp;/", "x'y/", "é/", "a;b=", "%2C/", "\U0001F600/"]))
+            odd = r["uri_prefix"] + draw(st.sampled_from(["q,r/", "a&b/", "&amp;/", "x'y/", "é/", "a;b=", "%2C/", "\U0001F600/", "v\u00a0", "w/\u3000", "e\u0301/", "\u212b/"]))
             if odd not in S.all_uri_prefixes(recs):
                 r["uri_prefix_synonyms"].append(odd)
+    forced = None
+    if draw(st.integers(0, 3)) == 0:
+        # a URI prefix with a Unicode whitespace character (valid IRI text) at its end or start: any strip() changes it
+        r = draw(st.sampled_from(recs))
+        edge = draw(st.sampled_from([r["uri_prefix"] + "v\u00a0", r["uri_prefix"] + "\u3000", "\u00a0" + r["uri_prefix"], r["uri_prefix"] + "x/\u2003"]))
+        if edge not in S.all_uri_prefixes(recs):
+            r["uri_prefix_synonyms"].append(edge)
+            forced = draw(st.sampled_from([edge, r["uri_prefix"]])) + draw(st.sampled_from(["1", "a/b"]))
     valid_ups = [u for u in S.all_uri_prefixes(recs) if not any(ch in INVALID_IRI_CHARS for ch in u)]
     mode = draw(st.integers(0, 5))
     valid_syns = [u for r in recs for u in r["uri_prefix_synonyms"] if not any(ch in INVALID_IRI_CHARS for ch in u)]
@@ -177,6 +185,8 @@ def service_cases(draw, tier="quick", http=False):
     else:
         u = draw(st.sampled_from(valid_ups))
         uri = u[:-1] + "1"
+    if forced is not None and draw(st.booleans()):
+        uri = forced
     preds = draw(st.sampled_from([None, None, [OWL_SAMEAS], [SKOS_EXACT], [OWL_SAMEAS, SKOS_EXACT]]))
     configured = preds or [OWL_SAMEAS]
     qpred = draw(st.sampled_from(configured + configured + [OTHER_PRED]))
